@@ -76,7 +76,7 @@ func runC09(cfg *config) *Report {
 	seen := map[string]bool{}
 	var corrOps, corrWant, corrDesc []string
 	for fi := 0; fi < nFiles; fi++ {
-		f, err := genFile(r, genOpts{maxCL: 1, maxBundles: 2, maxItems: 2, mutateP: 20, kind: 1 + fi%2})
+		f, err := genFile(r, genOpts{maxCL: 1, maxBundles: 2, maxItems: 2, mutateP: 20, kind: 1 + fi%2, b64: 30, b64plain: true})
 		if err != nil {
 			fi--
 			continue
@@ -307,7 +307,14 @@ func runC09(cfg *config) *Report {
 								continue
 							}
 							if rerr != nil {
-								rep.violate(Violation{Key: "C09:accepted-then-refused:" + recName, What: fmt.Sprintf("%s accepts a file whose %s.%s is invalid (%s), the bytes it writes (%s) are refused by the reader: %v", path.name, recName, w.Src, cl.name, e, rerr),
+								vkey := "C09:accepted-then-refused:" + recName
+								if iv, isIV := target.(*icl.ImageViewData); isIV && w.Src == "LengthImageData" {
+									if dec, derr := iv.DecodeImageData(); derr == nil && len(dec) > 0 {
+										// the image is base64 text: it is written decoded, at its own size, whatever the length column says
+										vkey += ":base64-image-and-length-column-disagree"
+									}
+								}
+								rep.violate(Violation{Key: vkey, What: fmt.Sprintf("%s accepts a file whose %s.%s is invalid (%s), the bytes it writes (%s) are refused by the reader: %v", path.name, recName, w.Src, cl.name, e, rerr),
 									Replay: map[string]any{"record": recName, "field": w.Src, "class": cl.name, "path": path.name, "encoding": e.String(), "json": string(js), "reader_error": rerr.Error()}})
 								break
 							}
@@ -332,5 +339,57 @@ func runC09(cfg *config) *Report {
 				Replay: map[string]any{"fault": corrDesc[i], "implementation": corrWant[i], "model": firstWord(got[i]), "op": corrOps[i][:min(len(corrOps[i]), 3000)]}, NoInput: true})
 		}
 	}
+	c09Base64Length(rep, r)
 	return rep
+}
+
+// c09Base64Length: the documented alternative form of an image (base64 text in ImageData, written decoded) with a length
+// column that announces more than the decoded size: built and validated, written, read back.  Directed, so that the
+// case is met on every run whatever the generator drew.
+func c09Base64Length(rep *Report, r rng) {
+	for tries := 0; tries < 50; tries++ {
+		f, err := genFile(r, genOpts{maxCL: 1, maxBundles: 1, maxItems: 2, mutateP: 0, kind: 1})
+		if err != nil {
+			continue
+		}
+		var iv *icl.ImageViewData
+		for _, b := range f.CashLetters[0].Bundles {
+			for _, cd := range b.Checks {
+				if iv == nil && len(cd.ImageViewData) > 0 {
+					iv = &cd.ImageViewData[0]
+				}
+			}
+		}
+		if iv == nil {
+			continue
+		}
+		iv.ImageData = []byte("SEVMTE9XT1JMRDE=") // "HELLOWORLD1"
+		iv.LengthImageData = "0000020"
+		ok := true
+		for ci := range f.CashLetters {
+			if f.CashLetters[ci].Create() != nil {
+				ok = false
+			}
+		}
+		if !ok || f.Create() != nil || f.Validate() != nil {
+			rep.count("base64-length:refused-at-build")
+			return
+		}
+		rep.Evaluations++
+		for _, e := range allEnc {
+			out, werr, p := realWrite(f, e)
+			if p != nil || werr != nil {
+				continue
+			}
+			if _, rerr, _ := realRead(out, e, 1<<22); rerr != nil {
+				js, _ := json.Marshal(f)
+				rep.violate(Violation{Key: "C09:accepted-then-refused:ImageViewData:base64-image-and-length-column-disagree",
+					What:   fmt.Sprintf("build+validate accepts a file whose ImageViewData holds an 11-byte image as base64 text and announces 20 bytes in LengthImageData; the bytes it writes (%s) are refused by the reader: %v", e, rerr),
+					Replay: map[string]any{"record": "ImageViewData", "field": "LengthImageData", "class": "announces-more-than-decoded", "encoding": e.String(), "json": string(js), "reader_error": rerr.Error()}})
+				return
+			}
+		}
+		rep.count("base64-length:read-back")
+		return
+	}
 }
